@@ -1,7 +1,7 @@
 //! C18: AsyncDriver with scripted tasks; AsyncRuntimeRunner vs the synchronous step loop.
 use crate::rt;
 use sc62015_core::async_driver::{current_cycle, emit_event, sleep_cycles, AsyncDriver, DriverEvent};
-use sc62015_core::{AsyncRuntimeRunner, CoreRuntime};
+use sc62015_core::{AsyncDisplayTask, AsyncRuntimeRunner, AsyncTimerKeyboardTask, CoreRuntime};
 use serde_json::{json, Value};
 use std::cell::RefCell;
 use std::rc::Rc;
@@ -153,6 +153,64 @@ pub fn handle(ctx: &mut DriverCtx, cmd: &str, req: &Value) -> Result<Value, Stri
             let a = rt::dump(&rc.borrow(), &ranges);
             let s = rt::dump(&sync_rt, &ranges);
             Ok(json!({"sync": s, "async": a, "sync_err": sync_err, "async_err": async_err, "stats": stats}))
+        }
+        // the device tasks of async_devices.rs as clients of the scheduler: the timer/keyboard task (one tick per cycle, `ticks` of
+        // them, or for ever when ticks = 0) and the display task (`frames` events, one every `period` cycles), run under `budgets`;
+        // returns what every run_for returned (event, clock, cycles) and the runtime next to a reference runtime ticked by a
+        // plain loop over the same cycles
+        "driver.devices" => {
+            let cfg = req.get("cfg").ok_or("cfg")?;
+            let ticks = req["ticks"].as_u64().unwrap_or(0);
+            let period = req["period"].as_u64().unwrap_or(0);
+            let frames = req["frames"].as_u64().unwrap_or(0);
+            let clock0 = req["clock"].as_u64().unwrap_or(0);
+            let off = req.get("off").and_then(|o| o.as_bool()).unwrap_or(false);
+            let budgets: Vec<u64> = req["budgets"].as_array().ok_or("budgets")?.iter().map(|b| b.as_u64().unwrap_or(0)).collect();
+            let mut art = CoreRuntime::new();
+            rt::configure(&mut art, cfg)?;
+            let mut srt = CoreRuntime::new();
+            rt::configure(&mut srt, cfg)?;
+            if off {
+                art.state.power_off();
+                srt.state.power_off();
+            }
+            let rc = Rc::new(RefCell::new(art));
+            let mut driver = AsyncDriver::with_clock(clock0);
+            let task = AsyncTimerKeyboardTask::new(rc.clone());
+            if ticks > 0 {
+                driver.spawn(async move { task.run_for(ticks).await; });
+            } else {
+                driver.spawn(async move { task.run().await; });
+            }
+            if frames > 0 {
+                let display = AsyncDisplayTask::new(period, DriverEvent::User(77));
+                driver.spawn(async move { display.run_frames(frames).await; });
+            }
+            let mut runs = Vec::new();
+            for b in &budgets {
+                let r = driver.run_for(*b);
+                let ev = match r.event { DriverEvent::MaxCycles => 0, DriverEvent::User(x) => x as u64 };
+                runs.push(json!([ev, driver.clock(), r.cycles_executed]));
+            }
+            // reference: the same cycles ticked by a plain loop (the task with a tick count stops after `ticks`; the endless one
+            // does not tick while the machine is powered off)
+            let end = driver.clock();
+            let last = if ticks > 0 { (clock0 + ticks).min(end) } else { end };
+            for cyc in clock0 + 1..=last {
+                if ticks == 0 && srt.state.is_off() {
+                    continue;
+                }
+                if !srt.timer.in_interrupt {
+                    let _ = srt.timer.tick_timers_with_keyboard(&mut srt.memory, cyc, |_m| (0, false, None), None, None);
+                    if let Some(isr) = srt.memory.read_internal_byte(0xFC) {
+                        srt.timer.irq_isr = isr;
+                    }
+                }
+            }
+            let ranges: Vec<(u32, u32)> = Vec::new();
+            let a = rt::dump(&rc.borrow(), &ranges);
+            let s = rt::dump(&srt, &ranges);
+            Ok(json!({"runs": runs, "async": a, "sync": s}))
         }
         _ => Err(format!("unknown driver cmd {cmd}")),
     }
